@@ -24,8 +24,10 @@ for pid in sorted(U.PROPS):
 m = {
     'version': 1,
     'setup_cmd': 'bin/setup',
-    'hooks': {'guard': 'etherparse_verif', 'enable': 'none needed: Verus works on a per-run annotated copy of /repo/etherparse/src, Kani on the public API of the crate at /repo/etherparse',
-              'baseline_off_cmd': 'cd /repo && cargo test --workspace --no-fail-fast --offline', 'source_commits': [], 'add_only': True},
+    'hooks': {'guard': 'julianschmid_etherparse_verif',
+              'enable': 'RUSTFLAGS="--cfg julianschmid_etherparse_verif" (tools/runner.py sets it, with an own build directory, for harnesses of the module h_pool only). No REGISTERED check uses the hook yet: the h_pool harnesses written against it are not decided (CBMC out of memory, DESIGN.md A.9). Every registered check builds /repo with the guard off: Verus works on a per-run annotated copy of /repo/etherparse/src, Kani on the public API of the crate at /repo/etherparse',
+              'baseline_off_cmd': 'cd /repo && cargo test --workspace --no-fail-fast --offline',
+              'source_commits': ['f66122ca3c9ca42f7cf51be89be76b383bde3046', '472f5a7597fd8aa97cae490e6896be2a1d8af967'], 'add_only': True},
     'engines': [
         {'name': 'verus', 'path': 'tools/weave.py + contracts/ + spec/ + vxlib/', 'serves_properties': sorted(p for p in U.PROPS if not U.PROPS[p].get('not_applicable') and U.PROPS[p].get('v', True)),
          'kind_free_text': 'deductive verifier (SMT), contracts woven in place into a per-run copy of the real source'},
